@@ -247,7 +247,7 @@ func run(r *mon.Run) {
 	r.Assume("clean EOF is additionally required to coincide with the reference decoder accepting the stream as a complete encoding (that is what 'detected' means for extension)")
 	rsMax := 8
 	if r.Thorough {
-		rsMax = 24
+		rsMax = 40
 	}
 	r.Note("grid_record_size_max", rsMax)
 	const limit = 16384
@@ -385,7 +385,7 @@ func run(r *mon.Run) {
 	// arbitrary streams against the digest of their own first unit
 	nArb := 4000
 	if r.Thorough {
-		nArb = 2000000
+		nArb = 10000000
 	}
 	for i := 0; i < nArb; i++ {
 		if !r.Mine(i) {
